@@ -131,6 +131,15 @@ SHAPES = [
     ("HEXAGONAL", (5.1, 5.1, 7.3, 90.0, 90.0, 120.0)),
     ("CUBIC", (5.1, 5.1, 5.1, 90.0, 90.0, 90.0)),
 ]
+# cells of a lower system that miss the special shape of a higher one only in the 5th-6th significant digit
+NEAR_SHAPES = [
+    ("TRICLINIC", (5.1, 6.2, 7.3, 90.0004, 97.0, 90.0)),
+    ("MONOCLINIC", (5.1, 6.2, 7.3, 90.0, 90.0005, 90.0)),
+    ("MONOCLINIC", (5.1, 5.1, 7.3, 90.0, 90.0, 120.0008)),
+    ("ORTHORHOMBIC", (5.1, 5.10003, 7.3, 90.0, 90.0, 90.0)),
+    ("TRICLINIC", (5.1, 5.1, 5.1, 81.0, 81.0, 81.0005)),
+    ("TETRAGONAL", (5.1, 5.1, 5.10004, 90.0, 90.0, 90.0)),
+]
 # S' strictly lower than S  (cells that only a lower system allows must be rejected by S)
 LOWER = {
     "TRICLINIC": [],
@@ -149,7 +158,7 @@ def latpar_oracle(sg, isSpaceGroupLatPar):
     cell = cell_of_metric(invariant_metric(sg, G0))
     if not isSpaceGroupLatPar(sg, *cell):
         out.append({"what": "rejects a cell its own operations leave invariant", "cell": cell})
-    for shape_sys, c in SHAPES:
+    for shape_sys, c in SHAPES + NEAR_SHAPES:
         if shape_sys in LOWER.get(sg.crystal_system, []):
             if isSpaceGroupLatPar(sg, *c):
                 out.append({"what": "accepts a cell of the lower system %s" % shape_sys, "cell": c})
